@@ -9,7 +9,14 @@ import (
 // Rng is splitmix64; every random choice of the harness derives from one state seeded by VERIF_SEED.
 type Rng struct{ s uint64 }
 
-func NewRng(seed uint64) *Rng { return &Rng{s: seed*0x9E3779B97F4A7C15 + 0x1234567} }
+// NewRng scrambles the seed first: with a plain affine start state the stream of seed s+k would be
+// the stream of seed s shifted by k draws, and shards (seed + 1000*i) would mostly repeat each other.
+func NewRng(seed uint64) *Rng {
+	z := (seed + 0x632BE59BD9B4E019) * 0xD1B54A32D192ED03
+	z = (z ^ (z >> 32)) * 0x9FB21C651E98DF25
+	z = (z ^ (z >> 29)) * 0xBF58476D1CE4E5B9
+	return &Rng{s: z ^ (z >> 32)}
+}
 
 func (r *Rng) U64() uint64 {
 	r.s += 0x9E3779B97F4A7C15
